@@ -125,6 +125,10 @@ impl Router {
     /// `Arc` until they are done; wait for them instead of failing (and thereby
     /// dropping the notification) while any of them is still alive.
     fn server_mut(&mut self) -> &mut Server {
+        #[cfg(iwe_verif)]
+        if Arc::get_mut(&mut self.server).is_none() {
+            verif::at(verif::Point::NotifWaiting);
+        }
         while Arc::get_mut(&mut self.server).is_none() {
             std::thread::sleep(std::time::Duration::from_millis(1));
         }
